@@ -28,7 +28,7 @@
     DisallowUnknownFields, time.Parse, the label pattern, Go type switches on decoded JSON) are
     inputs ([IBBad], [FBBad], [TBad], [LInvalid], [ma_wf], [mi_wf], [mf_wf]). *)
 From Coq Require Import List ZArith NArith Bool.
-From HK Require Import Gen.Consts Model.Queue Model.QueueHash Model.Headers Model.Publish.
+From HK Require Import Gen.Consts Model.Queue Model.QueueHash Model.QueueMon Model.Headers Model.Publish.
 Import ListNotations.
 Open Scope Z_scope.
 
@@ -535,21 +535,34 @@ Definition blank_next (m : msg) : msg :=
 Definition snap_obs (with_next : bool) (l : list msg) : Z :=
   hash_snap (if with_next then l else map blank_next l).
 
+Definition msg_tuple (with_next : bool) (m : msg) : list Z :=
+  [Z.of_N (m_id m); Z.of_N (m_route m); Z.of_N (m_target m); st_code (m_st m); m_recv m; m_attempt m;
+   if with_next then m_next m else 0; Z.of_N (m_body m); Z.of_N (m_hdr m); Z.of_N (m_trace m); Z.of_N (m_reason m);
+   match m_lease m with Some l => Z.of_N l + 1 | None => 0 end; m_until m].
+
+(** the rows that differ between two states: count, then 13 numbers per changed row (state code 0 = deleted) *)
+Definition diff_obs (with_next : bool) (before after : list msg) : list Z :=
+  let ch := flat_map (fun m => match find_id (m_id m) after with
+                               | Some m' => if msg_eqb m' m then [] else [msg_tuple with_next m']
+                               | None => [[Z.of_N (m_id m); 0; 0; 0; 0; 0; 0; 0; 0; 0; 0; 0; 0]]
+                               end) before in
+  Z.of_nat (length ch) :: concat ch.
+
 Definition state_of (l : list msg) : state := mkState l [] None 0 [].
 
 Inductive areq :=
 | AHttp (x : ctx) (now : Z) (e : endpoint) (q : hreq) (b : hbody)
 | AMcp (e : menv) (t : mtool).
 
-(** run a list of requests from a population; per request: response observables and the checksum
-    of the stored messages afterwards *)
-Fixpoint run_requests (l : list msg) (rs : list areq) : list (list Z * Z) :=
+(** run a list of requests from a population; per request: the response observables followed by the rows
+    that changed; at the end one checksum of all stored rows (next_run_at blanked) *)
+Fixpoint run_requests (l : list msg) (rs : list areq) : list (list Z) :=
   match rs with
-  | [] => []
+  | [] => [[snap_obs false l]]
   | AHttp x now e q b :: tl =>
       let '(s', r) := admin_request x now e q b (state_of l) in
-      (resp_obs r, snap_obs true (msgs s')) :: run_requests (msgs s') tl
+      (resp_obs r ++ diff_obs true l (msgs s')) :: run_requests (msgs s') tl
   | AMcp e t :: tl =>
       let '(s', r) := mcp_request e 0 t (state_of l) in
-      (resp_obs r, snap_obs false (msgs s')) :: run_requests (msgs s') tl
+      (resp_obs r ++ diff_obs false l (msgs s')) :: run_requests (msgs s') tl
   end.
